@@ -77,7 +77,9 @@ Record ccase := mkCCase { ck_uuid : id; ck_type : str; ck_args : list (option st
 Inductive cwait := CWNone | CWMsg | CWTimeout (seconds : N) (noresp : ccat).
 Record cswitch := mkSwitch {
   sw_operand : str; sw_result : option str; sw_wait : cwait;
-  sw_cases : list ccase; sw_cats : list ccat; sw_default : ccat }.
+  sw_cases : list ccase; sw_cats : list ccat; sw_default : ccat;
+  sw_auto : list id }.        (* SwitchRouter._generated_name_uuids: the categories whose name was invented (ghost before the repair
+                                 of category-name-clash: nothing reads it then) *)
 Record crandom := mkRandom { rr_result : option str; rr_cats : list ccat }.
 (* the Python class of a node with a SwitchRouter: SwitchRouterNode / EnterFlowNode / CallWebhookNode or
    TransferAirtimeNode (the two are treated alike by RowNodeGroup.add_exit) *)
@@ -110,6 +112,8 @@ Inductive cerr :=
 | EWrongTerminator      (* 'Wrong block terminator "end_block" found for block of type root_block.' *)
 | EUnexpectedEnd        (* "Unexpected end of flow. Did you forget end_for/end_block?" *)
 | ECatNameTooLong       (* RapidProRouterError "Category name too long (>115)" *)
+| ECatNameTaken         (* RapidProRouterError 'Category name "..." is taken by the default or No Response category' (repair of
+                           category-name-clash) *)
 | EDupNodeUuid (u : id) (* 'Node uuid "..." is used by more than one node of flow' *)
 | ECrash (k : crash)    (* uncaught exception: traceback + status 1 *)
 | EInternal             (* a dangling index of the store: never happens (no Python counterpart) *)
@@ -166,7 +170,8 @@ Fixpoint dec_aux (fuel : nat) (n : N) (acc : str) : str :=
            let q := N.div n 10 in
            if N.eqb q 0 then (48 + d)%N :: acc else dec_aux f q ((48 + d)%N :: acc)
   end.
-Definition dec_nat (n : nat) : str := dec_aux 40 (N.of_nat n) [].
+(* str(n): one division per digit, so n + 1 steps are always enough *)
+Definition dec_nat (n : nat) : str := dec_aux (S n) (N.of_nat n) [].
 
 Definition nonempty (s : str) : bool := match s with [] => false | _ => true end.
 
@@ -197,12 +202,12 @@ Fixpoint upd_first {X} (p : X -> bool) (f : X -> X) (l : list X) : list X :=
 (* the same on get_categories(): categories, then the default category, then the No Response category *)
 Definition sw_upd_cat (p : ccat -> bool) (f : ccat -> ccat) (r : cswitch) : cswitch :=
   if existsb p (sw_cats r)
-  then mkSwitch (sw_operand r) (sw_result r) (sw_wait r) (sw_cases r) (upd_first p f (sw_cats r)) (sw_default r)
+  then mkSwitch (sw_operand r) (sw_result r) (sw_wait r) (sw_cases r) (upd_first p f (sw_cats r)) (sw_default r) (sw_auto r)
   else if p (sw_default r)
-  then mkSwitch (sw_operand r) (sw_result r) (sw_wait r) (sw_cases r) (sw_cats r) (f (sw_default r))
+  then mkSwitch (sw_operand r) (sw_result r) (sw_wait r) (sw_cases r) (sw_cats r) (f (sw_default r)) (sw_auto r)
   else match sw_wait r with
        | CWTimeout t c =>
-         if p c then mkSwitch (sw_operand r) (sw_result r) (CWTimeout t (f c)) (sw_cases r) (sw_cats r) (sw_default r)
+         if p c then mkSwitch (sw_operand r) (sw_result r) (CWTimeout t (f c)) (sw_cases r) (sw_cats r) (sw_default r) (sw_auto r)
          else r
        | _ => r
        end.
@@ -213,29 +218,29 @@ Definition uuid_is (u : id) (c : ccat) : bool := str_eqb (cc_uuid c) u.
 Definition sw_set_operand (r : cswitch) (v : str) : cswitch :=
   match v with
   | [] => r
-  | _ => mkSwitch v (sw_result r) (sw_wait r) (sw_cases r) (sw_cats r) (sw_default r)
+  | _ => mkSwitch v (sw_result r) (sw_wait r) (sw_cases r) (sw_cats r) (sw_default r) (sw_auto r)
   end.
 
 (* update_default_category(destination_uuid, category_name=None) *)
 Definition sw_update_default (r : cswitch) (d : dst) (name : str) : cswitch :=
   let c := cat_set_dest (sw_default r) d in
   let c := match name with [] => c | _ => cat_set_name c name end in
-  mkSwitch (sw_operand r) (sw_result r) (sw_wait r) (sw_cases r) (sw_cats r) c.
+  mkSwitch (sw_operand r) (sw_result r) (sw_wait r) (sw_cases r) (sw_cats r) c (sw_auto r).
 
 Definition sw_rename_default (r : cswitch) (name : str) : cswitch :=
-  mkSwitch (sw_operand r) (sw_result r) (sw_wait r) (sw_cases r) (sw_cats r) (cat_set_name (sw_default r) name).
+  mkSwitch (sw_operand r) (sw_result r) (sw_wait r) (sw_cases r) (sw_cats r) (cat_set_name (sw_default r) name) (sw_auto r).
 
 (* update_no_response_category (callers check has_positive_wait) *)
 Definition sw_update_noresp (r : cswitch) (d : dst) : cswitch :=
   match sw_wait r with
-  | CWTimeout t c => mkSwitch (sw_operand r) (sw_result r) (CWTimeout t (cat_set_dest c d)) (sw_cases r) (sw_cats r) (sw_default r)
+  | CWTimeout t c => mkSwitch (sw_operand r) (sw_result r) (CWTimeout t (cat_set_dest c d)) (sw_cases r) (sw_cats r) (sw_default r) (sw_auto r)
   | _ => r
   end.
 
 Definition sw_add_cat (r : cswitch) (c : ccat) : cswitch :=
-  mkSwitch (sw_operand r) (sw_result r) (sw_wait r) (sw_cases r) (sw_cats r ++ [c]) (sw_default r).
+  mkSwitch (sw_operand r) (sw_result r) (sw_wait r) (sw_cases r) (sw_cats r ++ [c]) (sw_default r) (sw_auto r).
 Definition sw_add_case (r : cswitch) (k : ccase) : cswitch :=
-  mkSwitch (sw_operand r) (sw_result r) (sw_wait r) (sw_cases r ++ [k]) (sw_cats r) (sw_default r).
+  mkSwitch (sw_operand r) (sw_result r) (sw_wait r) (sw_cases r ++ [k]) (sw_cats r) (sw_default r) (sw_auto r).
 
 (* generate_category_name: "_".join(str(a).title() ...), then "_alt" appended while the name is taken *)
 Definition arg_text (a : option str) : str := match a with Some s => s | None => s_None end.
@@ -269,13 +274,32 @@ Definition new_switch (n : nat) (operand : str) (result : option str) (timeout :
   | Err e => Err e
   | Ok (other, n1) =>
     match timeout with
-    | None => Ok (mkSwitch operand result CWNone [] [] other, n1)
-    | Some 0%N => Ok (mkSwitch operand result CWMsg [] [] other, n1)
+    | None => Ok (mkSwitch operand result CWNone [] [] other [], n1)
+    | Some 0%N => Ok (mkSwitch operand result CWMsg [] [] other [], n1)
     | Some t => match new_cat n1 s_NoResponse None with
                 | Err e => Err e
-                | Ok (nr, n2) => Ok (mkSwitch operand result (CWTimeout t nr) [] [] other, n2)
+                | Ok (nr, n2) => Ok (mkSwitch operand result (CWTimeout t nr) [] [] other [], n2)
                 end
     end
+  end.
+
+(* SwitchRouter._claim_category_name (the repair of the finding category-name-clash; Gen/Tables.v: explicit_names_claimed):
+   a name given by the sheet refers to the category the sheet gave that name to - it is refused when it is the name of
+   the default / No Response category, and a category that merely was given the same INVENTED name makes way ("_alt") *)
+Definition sw_mark_auto (r : cswitch) (u : id) : cswitch :=
+  mkSwitch (sw_operand r) (sw_result r) (sw_wait r) (sw_cases r) (sw_cats r) (sw_default r) (u :: sw_auto r).
+
+Definition sw_claim (r : cswitch) (nm : str) : res cswitch :=
+  match find (name_is nm) (sw_all_cats r) with
+  | None => Ok r
+  | Some c =>
+    if str_eqb (cc_uuid c) (cc_uuid (sw_default r)) || existsb (uuid_is (cc_uuid c)) (wait_cats (sw_wait r)) then Err ECatNameTaken
+    else if memb (cc_uuid c) (sw_auto r)
+    then match alt_loop (S (length (sw_all_cats r))) (map cc_name (sw_all_cats r)) (nm ++ s_alt) with
+         | Err e => Err e
+         | Ok nm' => Ok (sw_upd_cat (uuid_is (cc_uuid c)) (fun x => cat_set_name x nm') r)
+         end
+    else Ok r
   end.
 
 (* SwitchRouter.add_choice *)
@@ -289,6 +313,8 @@ Definition sw_add_choice (n : nat) (r : cswitch) (variable ty : str) (args : lis
     then Ok (sw_upd_cat (uuid_is (ck_cat k)) (fun c => cat_set_dest c d) r, n)
     else Err (ECrash CKeyError)
   | None =>
+    let generated := match name with [] => true | _ => false end in
+    let mark (r' : cswitch) (u : id) := if generated then sw_mark_auto r' u else r' in
     match (match name with [] => gen_cat_name (map cc_name (sw_all_cats r)) args | _ => Ok name end) with
     | Err e => Err e
     | Ok nm =>
@@ -299,21 +325,25 @@ Definition sw_add_choice (n : nat) (r : cswitch) (variable ty : str) (args : lis
         | Ok (k, n1) => Ok (sw_add_case r1 k, n1)
         end
       else
-        (* get_or_create_category: the first category of get_categories() with that name is re-targeted *)
-        match find (name_is nm) (sw_all_cats r) with
-        | Some c =>
-          let r1 := sw_upd_cat (name_is nm) (fun c => cat_set_dest c d) r in
-          match new_case n ty args (cc_uuid c) with
-          | Err e => Err e
-          | Ok (k, n1) => Ok (sw_add_case r1 k, n1)
-          end
-        | None =>
-          match new_cat n nm d with
-          | Err e => Err e
-          | Ok (c, n1) =>
-            match new_case n1 ty args (cc_uuid c) with
+        match (if explicit_names_claimed && negb generated then sw_claim r nm else Ok r) with
+        | Err e => Err e
+        | Ok r =>
+          (* get_or_create_category: the first category of get_categories() with that name is re-targeted *)
+          match find (name_is nm) (sw_all_cats r) with
+          | Some c =>
+            let r1 := sw_upd_cat (name_is nm) (fun c => cat_set_dest c d) r in
+            match new_case n ty args (cc_uuid c) with
             | Err e => Err e
-            | Ok (k, n2) => Ok (sw_add_case (sw_add_cat r c) k, n2)
+            | Ok (k, n1) => Ok (mark (sw_add_case r1 k) (cc_uuid c), n1)
+            end
+          | None =>
+            match new_cat n nm d with
+            | Err e => Err e
+            | Ok (c, n1) =>
+              match new_case n1 ty args (cc_uuid c) with
+              | Err e => Err e
+              | Ok (k, n2) => Ok (mark (sw_add_case (sw_add_cat r c) k) (cc_uuid c), n2)
+              end
             end
           end
         end
@@ -464,7 +494,7 @@ Definition node_fill_loose (nd : cnode) (d : dst) : cnode :=
     | BSwitch cls r =>
       BSwitch cls (mkSwitch (sw_operand r) (sw_result r)
                             (match sw_wait r with CWTimeout t c => CWTimeout t (fill_cat d c) | w => w end)
-                            (sw_cases r) (map (fill_cat d) (sw_cats r)) (fill_cat d (sw_default r)))
+                            (sw_cases r) (map (fill_cat d) (sw_cats r)) (fill_cat d (sw_default r)) (sw_auto r))
     | BRandom r => BRandom (mkRandom (rr_result r) (map (fill_cat d) (rr_cats r)))
     end.
 
